@@ -14,6 +14,10 @@ use bytes::{Buf, BytesMut};
 use std::io::Cursor;
 use tokio::io::{AsyncReadExt, AsyncWriteExt};
 use tokio::net::TcpStream;
+use tokio::time::{self, Duration};
+
+/// A peer that stops reading must not hold the connection task for ever.
+const WRITE_TIMEOUT_SEC: u64 = 120;
 
 pub struct Connection {
     pub addr: String,
@@ -81,7 +85,12 @@ impl Connection {
         if let Some(socket) = self.socket.as_mut() {
             #[cfg(feature = "verif")]
             crate::verif::on_send(&self.addr, msg.data().as_slice());
-            socket.write_all(msg.data().as_slice()).await?;
+            let data = msg.data();
+            let write = socket.write_all(data.as_slice());
+            match time::timeout(Duration::from_secs(WRITE_TIMEOUT_SEC), write).await {
+                Ok(res) => res?,
+                Err(_) => return Err(Error::SocketWriteTimeout.into()),
+            }
         }
 
         Ok(())
